@@ -53,6 +53,10 @@ def one_run(kind, se, ep, periods, stop_epoch=None, metadata="callable", seed=0)
             fails.append("ObservableEvaluator acted at %s, expected %s" % (list(oe.epochs), want(p2)))
         if lines != ["E%d" % e for e in want(p4)]:
             fails.append("Logger lines %s, expected epochs %s" % (lines, want(p4)))
+        if np.shape(me.psum) != (len(want(p1)),) or np.shape(me["const"]) != (len(want(p1)),):
+            fails.append("per-name value arrays have shapes %s / %s for %d evaluations" % (np.shape(me.psum), np.shape(me["const"]), len(want(p1))))
+        if want(p2) and np.shape(oe.SigmaZ.mean) != (len(want(p2)),):
+            fails.append("per-observable statistic arrays have shape %s for %d evaluations" % (np.shape(oe.SigmaZ.mean), len(want(p2))))
         for i, e in enumerate(want(p1)):
             v = float(sum(float(p.sum()) for (net, n), p in snap[e].items() if net == "rbm_am"))
             if abs(me.psum[i] - v) > 1e-12 or me["const"][i] != 1.5 or me.get_value("psum", i) != me.psum[i]:
@@ -98,7 +102,8 @@ def one_run(kind, se, ep, periods, stop_epoch=None, metadata="callable", seed=0)
 def native_check(quick=True):
     fails, n = [], 0
     runs = [("positive", 1, 6, (1, 2, 3, 4), None, "callable"), ("complex", 2, 7, (2, 3, 2, 1), 5, "dict"), ("mixed", 1, 4, (1, 1, 2, 3), 3, "dict"),
-            ("positive", 3, 9, (3, 2, 4, 5), 8, "none"), ("complex", 1, 4, (2, 2, 2, 2), None, "callable")]
+            ("positive", 3, 9, (3, 2, 4, 5), 8, "none"), ("complex", 1, 4, (2, 2, 2, 2), None, "callable"),
+            ("positive", 1, 5, (3, 4, 5, 2), None, "dict"), ("positive", 3, 7, (4, 5, 6, 7), None, "none")]      # evaluators that fire exactly once
     if not quick:
         runs += [(k, se, ep, ps, stp, md) for k in ("positive", "complex", "mixed") for (se, ep) in ((1, 5), (4, 9)) for ps in ((1, 2, 3, 5), (2, 2, 1, 1))
                  for stp in (None, 4) for md in ("dict", "callable")]
